@@ -1278,6 +1278,12 @@ done:
        *       Termination even though we are technically returning binary data.
        */
       *bin     = (unsigned char *)ares_buf_finish_str(binbuf, &mylen);
+      if (*bin == NULL) {
+        /* zero-length string: the buffer owns no memory yet and the
+         * allocation for the terminator failed; binbuf is still ours */
+        ares_buf_destroy(binbuf);
+        return ARES_ENOMEM;
+      }
       *bin_len = mylen;
     }
   }
